@@ -4,6 +4,10 @@ use super::{
 	SchemaError,
 };
 
+// Under `cargo kani` the name-lookup tables are backed by a solver-friendly map model (see /verif)
+#[cfg(kani)]
+use {crate::verif::LinearMap as HashMap, std::marker::PhantomData};
+#[cfg(not(kani))]
 use std::{collections::HashMap, marker::PhantomData};
 
 pub(crate) use super::{Fixed, Name};
@@ -540,4 +544,11 @@ impl<'a> std::fmt::Debug for SchemaNode<'a> {
 			SchemaNode::Duration => f.debug_tuple("Duration").finish(),
 		}
 	}
+}
+
+/// Verification harness mount point (only compiled under `cargo kani`; source lives outside this repository)
+#[cfg(kani)]
+#[allow(unused, missing_docs)]
+pub(crate) mod verif {
+	include!(concat!(env!("SAF_VERIF"), "/self_referential.rs"));
 }
